@@ -79,7 +79,17 @@ void MutateMesh(Tape& t, Mesh& g, std::ostream& d) {
       case 0: resize(g.vertProperties, "vertProperties"); break;
       case 1: resize(g.triVerts, "triVerts"); break;
       case 2: resize(g.mergeFromVert, "mergeFromVert"); if (t.flip()) resize(g.mergeToVert, "mergeToVert"); break;
-      case 3: resize(g.runIndex, "runIndex"); break;
+      case 3: {
+        size_t before = g.runIndex.size();
+        resize(g.runIndex, "runIndex");
+        // the short run-table form (one entry per run, end implied): half of the time its last entry is pushed
+        // beyond the triangle array (no tape byte is consumed, so earlier replay tapes decode as before)
+        if (g.runIndex.size() + 1 == before && g.runIndex.size() == g.runOriginalID.size() && g.runIndex.size() >= 2 && before % 2 == 1) {
+          g.runIndex.back() = I(g.triVerts.size() + 6);
+          d << " runIndex.back()=beyond-end";
+        }
+        break;
+      }
       case 4: resize(g.runOriginalID, "runOriginalID"); break;
       case 5: resize(g.runTransform, "runTransform"); break;
       case 6: resize(g.runFlags, "runFlags"); if (!g.runFlags.empty() && t.flip()) g.runFlags[t.range(0, int(g.runFlags.size()) - 1)] = uint8_t(t.byte()); break;
@@ -177,6 +187,14 @@ bool FollowUps(Tape& t, Outcome& o, const Manifold& m0, std::ostream& d) {
       if (!trh.ok && gJudgeTopology && (trh.sig == "topo:duplicate-edge" || trh.sig == "topo:degenerate-tri")) { o.known("F25-hull-duplicate-edge", "malformed:topo:duplicate-edge", std::string("after ") + name + ": " + trh.msg); return false; }
     }
     if (!st.check(m, r, name)) return false;
+    if (op <= 2 || op == 12) {
+      // the same operators with a valid *empty* left operand: an error on the right must still surface
+      Manifold e;
+      if (!st.check(m, e - m, "empty-minus")) return false;
+      if (!st.check(m, e ^ m, "empty-intersect")) return false;
+      auto sp = e.Split(m);
+      if (!st.check(m, sp.first, "empty.Split.first") || !st.check(m, sp.second, "empty.Split.second")) return false;
+    }
     // queries must be callable on anything
     (void)r.Volume(); (void)r.SurfaceArea(); (void)r.Genus(); (void)r.BoundingBox(); (void)r.GetMeshGL(); (void)r.NumDegenerateTris();
     m = r;
